@@ -190,21 +190,37 @@ fn process_file_into(
             let buffer = emit_recursive_ascent(&session, &grammar, report_file)?;
             #[cfg(feature = "verif_hooks")]
             verif_hooks::crash_point("after_generate", lalrpop_file);
-            let mut output_file = fs::File::create(rs_file)?;
+            // Write to a temporary sibling and move it into place once it is complete:
+            // `needs_rebuild` only looks at the two header lines, so a build interrupted
+            // after writing them must not leave a partial file under the final name.
+            let tmp_file = tmp_rs_file(rs_file);
+            {
+                let mut output_file = fs::File::create(&tmp_file)?;
+                #[cfg(feature = "verif_hooks")]
+                verif_hooks::crash_point("after_create", lalrpop_file);
+                writeln!(output_file, "{LALRPOP_VERSION_HEADER}")?;
+                #[cfg(feature = "verif_hooks")]
+                verif_hooks::crash_point("after_version_line", lalrpop_file);
+                writeln!(output_file, "{}", hash_file(lalrpop_file)?)?;
+                #[cfg(feature = "verif_hooks")]
+                verif_hooks::crash_point("after_hash_line", lalrpop_file);
+                output_file.write_all(&buffer)?;
+                #[cfg(feature = "verif_hooks")]
+                verif_hooks::crash_point("after_body", lalrpop_file);
+            }
+            fs::rename(&tmp_file, rs_file)?;
             #[cfg(feature = "verif_hooks")]
-            verif_hooks::crash_point("after_create", lalrpop_file);
-            writeln!(output_file, "{LALRPOP_VERSION_HEADER}")?;
-            #[cfg(feature = "verif_hooks")]
-            verif_hooks::crash_point("after_version_line", lalrpop_file);
-            writeln!(output_file, "{}", hash_file(lalrpop_file)?)?;
-            #[cfg(feature = "verif_hooks")]
-            verif_hooks::crash_point("after_hash_line", lalrpop_file);
-            output_file.write_all(&buffer)?;
-            #[cfg(feature = "verif_hooks")]
-            verif_hooks::crash_point("after_body", lalrpop_file);
+            verif_hooks::crash_point("after_rename", lalrpop_file);
         }
     }
     Ok(())
+}
+
+/// `<name>.rs.tmp` next to `<name>.rs` (same directory, so that the rename is atomic).
+fn tmp_rs_file(rs_file: &Path) -> PathBuf {
+    let mut name = rs_file.file_name().unwrap_or_default().to_os_string();
+    name.push(".tmp");
+    rs_file.with_file_name(name)
 }
 
 fn remove_old_file(rs_file: &Path) -> io::Result<()> {
